@@ -59,6 +59,10 @@ def gen_custom(rng, tier, index):
         "theta": float(rng.uniform(0, 2 * np.pi)),
         "speed": float(rng.choice([0.0, rng.uniform(0.3, 3.0), rng.uniform(0.3, 3.0)])),
     }
+    if rng.random() < 0.5:
+        # a conservative actuator whose generalized force direction depends on the configuration (spring to an anchor outside the guide)
+        d = rng.normal(size=2)
+        polar["actuator"] = {"anchor": (c + d / np.linalg.norm(d) * R * float(rng.uniform(1.5, 3.0))).tolist(), "k": float(rng.uniform(2, 30)), "l0": float(rng.uniform(0.2, 1.0) * R)}
     mode = "order" if rng.random() < 0.4 else "reverse"
     plan = {"custom": "polar", "polar": polar, "mode": mode, "dt": float(10 ** rng.uniform(-2.6, -2.0)), "N": int(rng.integers(30, 160)), "knobs": {}}
     if mode == "reverse":
@@ -185,6 +189,8 @@ def execute_custom(plan, out, log):
         q0, u0 = system.q0.copy(), system.u0.copy()
         scale = 1 + float(np.max(np.abs(q0))) + float(np.max(np.abs(u0)))
         out["probes"]["configuration_dependent_mass"] += 1
+        if plan["polar"].get("actuator"):
+            out["probes"]["configuration_dependent_actuator_direction"] += 1
         if mode == "reverse":
             pristine = system.deepcopy()
             sol_f = run_leg(B, spec_for(plan, dt, N), sim)
